@@ -45,7 +45,7 @@ KERNELS = {
 NAT_KERNELS = {"_check_regular_chunks", "to_chunksize"}
 
 GEN_HEADER = r"""
-From CubedV Require Import Model.Util Model.Memory Model.Rechunk Model.Regular Model.Dag Model.FuseGuard Model.Admission Model.Resume Proofs.FuseGuardProofs Proofs.AdmissionProofs Proofs.ResumeProofs.
+From CubedV Require Import Model.Util Model.Memory Model.Rechunk Model.Regular Model.Dag Model.FuseGuard Model.Admission Model.Resume Model.Events Proofs.FuseGuardProofs Proofs.AdmissionProofs Proofs.ResumeProofs Proofs.EventsProofs.
 From Gen Require Import Gen.
 Local Open Scope Z_scope.
 
@@ -152,7 +152,8 @@ OBJ_KERNELS = {
 }
 FUSE_FIELDS = ["projected_mem", "allowed_mem", "reserved_mem", "num_tasks"]
 # the admission test (cubed/core/plan.py): strictly shaped functions, see translate_admission
-ADMISSION_KERNELS = ["Plan._find_ops_exceeding_memory", "FinalizedPlan.validate", "admission.wiring", "already_computed", "resume.wiring"]
+ADMISSION_KERNELS = ["Plan._find_ops_exceeding_memory", "FinalizedPlan.validate", "admission.wiring", "already_computed", "resume.wiring",
+                     "skip_node", "visit_nodes", "visit_node_generations"]
 
 EQUIV.update({
     "is_fuse_candidate": r"""
@@ -223,6 +224,30 @@ Corollary source_skips_only_complete : forall outs,
 Proof. intros outs. rewrite gen_already_computed_equiv. apply skipped_only_if_complete. Qed.
 """,
     "resume.wiring": "",
+    "skip_node": r"""
+Theorem gen_skip_node_spec : forall hp c, gen_skip_node hp c = negb hp || c.
+Proof. intros [|] [|]; reflexivity. Qed.
+""",
+    "visit_nodes": r"""
+Theorem gen_visit_nodes_equiv : forall skip order, gen_visit_nodes skip order = Events.visit_nodes skip order.
+Proof. intros. reflexivity. Qed.
+(* the barrier theorem, about the source's own traversal: whatever topological order networkx hands back *)
+Corollary source_seq_barrier : forall nodes edges order is_op skip (ntasks : nat -> nat),
+  is_topo_order nodes edges order = true ->
+  barrier_ok (op_deps is_op edges) (seq_trace (map (fun n => (n, ntasks n)) (gen_visit_nodes skip order))) = true.
+Proof. intros. rewrite gen_visit_nodes_equiv. now apply seq_barrier with (nodes := nodes). Qed.
+""",
+    "visit_node_generations": r"""
+Theorem gen_visit_node_generations_equiv : forall skip gens, gen_visit_node_generations skip gens = Events.visit_generations skip gens.
+Proof. intros. reflexivity. Qed.
+Corollary source_par_barrier : forall nodes edges gens is_op skip (ntasks : nat -> nat) (inter : list (list ev)),
+  is_generations nodes edges gens = true ->
+  length inter = length (gen_visit_node_generations skip gens) ->
+  (forall l e, In l inter -> In e l -> exists n, e = ETE n) ->
+  barrier_ok (op_deps is_op edges)
+    (par_trace (combine (map (map (fun n => (n, ntasks n))) (gen_visit_node_generations skip gens)) inter)) = true.
+Proof. intros until inter. rewrite gen_visit_node_generations_equiv. apply par_barrier. Qed.
+""",
 })
 DEPS.update({"FinalizedPlan.validate": ["Plan._find_ops_exceeding_memory"], "admission.wiring": [], "resume.wiring": []})
 DEPS.update({"can_fuse_primitive_ops": ["is_fuse_candidate"],
@@ -562,6 +587,40 @@ def translate_admission(name, repo):
         if not ex or U(ex[0]) != "self.validate()":
             raise TranslationError("FinalizedPlan.execute must call self.validate() first")
         return "(* admission.wiring: structural obligations on _finalize / FinalizedPlan.__init__ / execute hold *)\n"
+    if name in ("skip_node", "visit_nodes", "visit_node_generations"):
+        ptree = ast.parse((Path(repo) / "cubed/runtime/pipeline.py").read_text())
+        fn = next((n for n in ptree.body if isinstance(n, ast.FunctionDef) and n.name == name), None)
+        if fn is None:
+            raise TranslationError(f"{name} not found in cubed/runtime/pipeline.py")
+        b = _nodoc(fn.body)
+        NODES = "nodes = {n: d for n, d in dag.nodes(data=True)}"
+        if name == "skip_node":
+            # pipeline = nodes[name].get('pipeline', None); if pipeline is None: return True; return nodes[name].get('computed', False)
+            if ([a.arg for a in fn.args.args] != ["name", "dag", "nodes"] or len(b) != 3 or U(b[0]) != "pipeline = nodes[name].get('pipeline', None)"
+                    or not (isinstance(b[1], ast.If) and not b[1].orelse and len(b[1].body) == 1 and isinstance(b[1].body[0], ast.Return))
+                    or U(b[2]) != "return nodes[name].get('computed', False)"):
+                raise TranslationError("skip_node: shape")
+            tr = TrObj({"pipeline": "option unit"})
+            x = _is_none_test(b[1].test)
+            if x != "pipeline":
+                raise TranslationError("skip_node: test")
+            then = TrObj({}).expr(b[1].body[0].value)
+            return (f"Definition gen_skip_node (has_pipeline computed : bool) : bool :=\n  if negb has_pipeline then {then} else computed.\n")
+        if name == "visit_nodes":
+            # for name in list(nx.topological_sort(dag)): if skip_node(name, dag, nodes): continue; yield name, nodes[name]
+            if (len(b) != 2 or U(b[0]) != NODES or not isinstance(b[1], ast.For) or b[1].orelse or U(b[1].target) != "name"
+                    or U(b[1].iter) not in ("list(nx.topological_sort(dag))", "nx.topological_sort(dag)") or len(b[1].body) != 2
+                    or U(b[1].body[0]) != "if skip_node(name, dag, nodes):\n    continue" or U(b[1].body[1]) not in ("yield (name, nodes[name])", "yield name, nodes[name]")):
+                raise TranslationError("visit_nodes: shape")
+            return "Definition gen_visit_nodes (skip : nat -> bool) (order : list nat) : list nat :=\n  filter (fun name => negb (skip name)) order.\n"
+        # for names in nx.topological_generations(dag): gen = [(name, nodes[name]) for name in names if not skip_node(...)]; if len(gen) > 0: yield gen
+        if (len(b) != 2 or U(b[0]) != NODES or not isinstance(b[1], ast.For) or b[1].orelse or U(b[1].target) != "names"
+                or U(b[1].iter) != "nx.topological_generations(dag)" or len(b[1].body) != 2
+                or U(b[1].body[0]) != "gen = [(name, nodes[name]) for name in names if not skip_node(name, dag, nodes)]"
+                or U(b[1].body[1]) != "if len(gen) > 0:\n    yield gen"):
+            raise TranslationError("visit_node_generations: shape")
+        return ("Definition gen_visit_node_generations (skip : nat -> bool) (gens : list (list nat)) : list (list nat) :=\n"
+                "  filter (fun gen => match gen with [] => false | _ => true end) (map (fun names => filter (fun name => negb (skip name)) names) gens).\n")
     if name == "already_computed":
         fn = next((n for n in tree.body if isinstance(n, ast.FunctionDef) and n.name == "already_computed"), None)
         if fn is None or [a.arg for a in fn.args.args] != ["name", "dag", "nodes"]:
